@@ -250,3 +250,65 @@ def find_local(eng, fn: FunctionInfo, pred: Callable[[str], bool], default: str 
     r = find_locals(eng, fn, pred)
     return r[0] if r else default
 
+
+def resolve_all(eng, fn: FunctionInfo, e: ast.AST, limit: int = 24, depth: int = 5) -> List[str]:
+    """all texts of e with every local of fn replaced by (each of) its assigned right-hand sides, recursively.
+    Locals with several assignments give several texts (cartesian, bounded by `limit`); locals bound by loops / with / except /
+    imports and parameters stay as names.  Rules compare these texts instead of texts that contain today's variable names."""
+    import copy
+    import itertools
+    defs_of = eng.flow._defs(fn)
+
+    def alts(name: str, d: int) -> Optional[List[ast.AST]]:
+        if name in fn.params or d <= 0:
+            return None
+        ds = defs_of.get(name)
+        if not ds:
+            return None
+        out = []
+        for kind, node, extra in ds:
+            if kind == "assign" and isinstance(node, ast.expr) and not extra:
+                out.append(node)
+            elif kind in ("mut-call", "mut-set"):
+                continue
+            else:
+                return None  # loop target, with-as, except-as, tuple unpacking ... keep the name
+        return out or None
+
+    def expand(node: ast.AST, d: int, stack: tuple) -> List[ast.AST]:
+        names = []
+        for x in ast.walk(node):
+            if isinstance(x, ast.Name) and isinstance(x.ctx, ast.Load) and x.id not in names and x.id not in stack:
+                if alts(x.id, d) is not None:
+                    names.append(x.id)
+        if not names:
+            return [node]
+        choices = []
+        for nm in names:
+            sub = []
+            for a in alts(nm, d) or []:
+                sub.extend(expand(a, d - 1, stack + (nm,)))
+            choices.append(sub[:limit])
+        res = []
+        for combo in itertools.islice(itertools.product(*choices), limit):
+            m = dict(zip(names, combo))
+
+            class Sub(ast.NodeTransformer):
+                def visit_Name(self, n: ast.Name):
+                    if isinstance(n.ctx, ast.Load) and n.id in m:
+                        return copy.deepcopy(m[n.id])
+                    return n
+            res.append(Sub().visit(copy.deepcopy(node)))
+        return res
+    texts = []
+    for t in expand(e, depth, ()):
+        x = norm(t)
+        if x not in texts:
+            texts.append(x)
+    return sorted(texts)
+
+
+def resolve_one(eng, fn: FunctionInfo, e: ast.AST) -> str:
+    r = resolve_all(eng, fn, e)
+    return r[0] if len(r) == 1 else " | ".join(r)
+
